@@ -142,6 +142,11 @@ func (v *Verifier) VerifyFunc(key string, c *Contract, class map[string]string) 
 	ctx := NewCtx()
 	e := &Engine{prog: v.prog, pkgs: v.pkgs, cs: v.cs, ctx: ctx, lay: NewLayouter(ctx, bv), root: fn, rootC: c, maxPaths: 4000,
 		inputs: map[string]Term{}, trustedUsed: map[string]bool{}, callees: map[string]bool{}}
+	for _, o := range c.Extra["nla"] {
+		if o == "uf" {
+			e.nlaUF = true
+		}
+	}
 	e.funcName = key
 	if run.Class != "" {
 		e.funcName += "[" + run.Class + "]"
@@ -221,6 +226,11 @@ func (v *Verifier) VerifyFunc(key string, c *Contract, class map[string]string) 
 		e.params[p.Name()] = pv
 		args = append(args, pv)
 	}
+	// memory that exists at entry holds well-formed values of its type
+	seenWF := map[string]bool{}
+	for _, p := range fn.Params {
+		e.entryMemoryWF(st, resolve(p.Type(), env), seenWF, 0)
+	}
 	// free variables do not occur in root functions
 	rootFr := &Frame{fn: fn, env: env, regs: map[ssa.Value]Val{}, names: map[string]NameBinding{}, contract: c}
 	for i, p := range fn.Params {
@@ -293,4 +303,64 @@ func (v *Verifier) VerifyFunc(key string, c *Contract, class map[string]string) 
 	}
 	sort.Strings(run.Callees)
 	return
+}
+
+// entryMemoryWF assumes, for every heap reachable from a value of type t, that
+// the values stored in it at entry satisfy their types' representation
+// invariants (slice headers sane, references allocated).
+func (e *Engine) entryMemoryWF(st *State, t types.Type, seen map[string]bool, depth int) {
+	if depth > 4 {
+		return
+	}
+	switch x := t.Underlying().(type) {
+	case *types.Slice:
+		et := resolve(x.Elem(), nil)
+		key := "s:" + typeKey(et)
+		if seen[key] {
+			return
+		}
+		seen[key] = true
+		ls := e.lay.Leaves(et)
+		v := Val{T: et, L: make([]Term, len(ls))}
+		var pats []string
+		for i := range ls {
+			h := e.getSliceHeap(st, et, i)
+			v.L[i] = T(ls[i].Sort, "(select (select %s q_b) q_k)", h.S)
+			pats = append(pats, v.L[i].S)
+		}
+		f := e.wellFormed(v, e.next0)
+		if f.S != "true" {
+			st.Assume(T(SBool, "(forall ((q_b Int) (q_k Int)) (! %s :pattern (%s)))", f.S, pats[0]))
+		}
+		e.entryMemoryWF(st, et, seen, depth+1)
+	case *types.Pointer:
+		pt := resolve(x.Elem(), nil)
+		key := "o:" + typeKey(pt)
+		if seen[key] {
+			return
+		}
+		seen[key] = true
+		ls := e.lay.Leaves(pt)
+		v := Val{T: pt, L: make([]Term, len(ls))}
+		for i := range ls {
+			h := e.getObjHeap(st, pt, i)
+			v.L[i] = T(ls[i].Sort, "(select %s q_r)", h.S)
+		}
+		f := e.wellFormed(v, e.next0)
+		if f.S != "true" && len(ls) > 0 {
+			st.Assume(T(SBool, "(forall ((q_r Int)) (! %s :pattern (%s)))", f.S, v.L[0].S))
+		}
+		e.entryMemoryWF(st, pt, seen, depth+1)
+	case *types.Struct:
+		for i := 0; i < x.NumFields(); i++ {
+			e.entryMemoryWF(st, resolve(x.Field(i).Type(), nil), seen, depth+1)
+		}
+	case *types.Array:
+		e.entryMemoryWF(st, resolve(x.Elem(), nil), seen, depth+1)
+	}
+	if tp, ok := t.(*types.TypeParam); ok {
+		if c := coreOf(tp); c != nil {
+			e.entryMemoryWF(st, c, seen, depth)
+		}
+	}
 }
